@@ -20,6 +20,9 @@
  *   pid <n>                 value served by getpid
  *   host <name>             value served by gethostname / uname.nodename
  *   heappad <bytes>         leaked malloc before main (moves later heap addresses)
+ *   heapfrag <u64>          seed of a fragmentation pattern built before main: ~48 blocks of mixed sizes are allocated
+ *                           and a seed-chosen subset freed, so that later allocations land in holes and their RELATIVE
+ *                           order changes (a uniform shift would not reveal ordering by address)
  *   fault <role> <class> <nth> eintr
  *   fault <role> <class> <nth> short <nbytes>
  *   fault <role> <class> <nth> err <ERRNO-NAME>
@@ -116,7 +119,51 @@ static void unset_env(const char *name) {
     *w = NULL;
 }
 
+/* ------------------------------------------------------------ fork server
+ * Process creation is the scarce resource on the build VM (exec + dynamic loading + relocation page faults are
+ * serialised system-wide), and all fault plans of one workload item share argv and input files.  With
+ * PROCSIM_FORKSERVER="<ctl_fd>,<status_fd>" the constructor therefore parks *before main()* and forks one child
+ * per request: the request names a prepared run directory (files, .plan, optional .stdin); the child chdir()s there,
+ * points fds 0/1/2 at .stdin/.stdout/.stderr and returns into the normal initialisation and then main().  The parent
+ * reports "P <pid>" and, after waitpid, "S <raw wait status>". */
+#include <sys/wait.h>
+static void forkserver_loop(const char *spec) {
+    int ctl = -1, st = -1;
+    if (sscanf(spec, "%d,%d", &ctl, &st) != 2) return;
+    for (;;) {
+        char dir[1024]; size_t n = 0;
+        for (;;) {
+            char c; long r = syscall(SYS_read, ctl, &c, 1L);
+            if (r <= 0) _exit(0);
+            if (c == '\n') break;
+            if (n < sizeof dir - 1) dir[n++] = c;
+        }
+        dir[n] = 0;
+        pid_t pid = fork();
+        if (pid < 0) { dprintf(st, "E fork\n"); continue; }
+        if (pid == 0) {
+            syscall(SYS_close, ctl); syscall(SYS_close, st);
+            if (chdir(dir) != 0) _exit(97);
+            long fd = syscall(SYS_openat, AT_FDCWD, ".stdin", O_RDONLY, 0);
+            if (fd < 0) fd = syscall(SYS_openat, AT_FDCWD, "/dev/null", O_RDONLY, 0);
+            if (fd != 0) { syscall(SYS_dup3, (int)fd, 0, 0); syscall(SYS_close, (int)fd); }
+            fd = syscall(SYS_openat, AT_FDCWD, ".stdout", O_WRONLY | O_CREAT | O_TRUNC, 0644);
+            if (fd != 1) { syscall(SYS_dup3, (int)fd, 1, 0); syscall(SYS_close, (int)fd); }
+            fd = syscall(SYS_openat, AT_FDCWD, ".stderr", O_WRONLY | O_CREAT | O_TRUNC | O_APPEND, 0644);
+            if (fd != 2) { syscall(SYS_dup3, (int)fd, 2, 0); syscall(SYS_close, (int)fd); }
+            unset_env("PROCSIM_FORKSERVER");
+            return; /* into procsim_init's normal path, then main() */
+        }
+        dprintf(st, "P %d\n", (int)pid);
+        int status = 0;
+        while (waitpid(pid, &status, 0) < 0 && errno == EINTR) {}
+        dprintf(st, "S %d\n", status);
+    }
+}
+
 __attribute__((constructor)) static void procsim_init(void) {
+    const char *fsrv = getenv("PROCSIM_FORKSERVER");
+    if (fsrv) forkserver_loop(fsrv);
     const char *plan = getenv("PROCSIM_PLAN");
     const char *log = getenv("PROCSIM_LOG");
     if (!plan || !log) return;
@@ -127,6 +174,7 @@ __attribute__((constructor)) static void procsim_init(void) {
     fdrole[0] = R_STDIN; fdrole[1] = R_STDOUT; fdrole[2] = R_STDERR;
     long pfd = syscall(SYS_openat, AT_FDCWD, plan, O_RDONLY, 0);
     size_t heappad = 0;
+    uint64_t heapfrag = 0;
     if (pfd >= 0) {
         static char pbuf[65536];
         long n = 0, r;
@@ -148,6 +196,7 @@ __attribute__((constructor)) static void procsim_init(void) {
             else if (sscanf(line, "pid %63s", a) == 1) { plan_pid = strtol(a, NULL, 0); have_pid = 1; }
             else if (sscanf(line, "host %63s", a) == 1) { snprintf(plan_host, sizeof plan_host, "%s", a); have_host = 1; }
             else if (sscanf(line, "heappad %63s", a) == 1) { heappad = strtoull(a, NULL, 0); }
+            else if (sscanf(line, "heapfrag %63s", a) == 1) { heapfrag = strtoull(a, NULL, 0); }
             else if (sscanf(line, "fault %63s %63s %63s %63s %63s", a, c, d, e, b) >= 4 && nfaults < MAXFAULT) {
                 struct fault *f = &faults[nfaults];
                 f->role = role_by_name(a); f->cls = cls_by_name(c); f->nth = strtol(d, NULL, 0);
@@ -163,6 +212,20 @@ __attribute__((constructor)) static void procsim_init(void) {
     unset_env("PROCSIM_PLAN"); unset_env("PROCSIM_LOG"); unset_env("LD_PRELOAD");
     active = 1;
     if (heappad) { volatile char *p = malloc(heappad); if (p) p[0] = 1; }
+    if (heapfrag) {
+        static const size_t sizes[] = { 24, 40, 72, 136, 520, 1032, 4104, 16392, 65552, 66000, 70000, 100000, 131000 };
+        void *blk[48];
+        uint64_t st = heapfrag;
+        for (int i = 0; i < 48; i++) {
+            st = st * 6364136223846793005ULL + 1442695040888963407ULL;
+            blk[i] = malloc(sizes[(st >> 33) % (sizeof sizes / sizeof sizes[0])]);
+            if (blk[i]) ((volatile char *)blk[i])[0] = 1;
+        }
+        for (int i = 0; i < 48; i++) {
+            st = st * 6364136223846793005ULL + 1442695040888963407ULL;
+            if ((st >> 40) & 1) free(blk[i]);
+        }
+    }
     logf_("%ld init rand=%llu time=%lld pid=%ld heappad=%zu\n", seq++, (unsigned long long)rand_seed, plan_time, plan_pid, heappad);
 }
 
